@@ -299,6 +299,7 @@ package schema
 //@     invariant[positions_in_range] forall(k int, j int :: in(k, m) && 0 <= j && j < len(m[k]) ==> 0 <= m[k][j] && m[k][j] < len(chunks))
 //@   loop 3:
 //@     modifies fresh()
+//@     invariant[identity_from_the_group_s_own_chunks] @C14 (toolID == "" || exists(q int :: 0 <= q && q < $i && chunks[v[q]].ID == toolID)) && (toolType == "" || exists(q int :: 0 <= q && q < $i && chunks[v[q]].Type == toolType)) && (toolName == "" || exists(q int :: 0 <= q && q < $i && chunks[v[q]].Function.Name == toolName))
 
 //@ func MergeStreamReaders
 //@   props C08
